@@ -72,6 +72,13 @@ void World::hs(int slot, int idx, int a) {
   }
 }
 
+// runs f from the destructor of a local while an exception propagates out of its scope (k1 = 1 of release / destroy / delete):
+// end-of-life reports are the same whether a scope is left normally or by an exception
+template <typename F> static void during_unwinding(F f) {
+  struct Guard { F& f; ~Guard() { f(); } };
+  try { Guard g{f}; throw 42; } catch (int) {}
+}
+
 std::string World::call_fn(int obj, int fn, int a1, int a2) {
   auto go = [&](auto& x) -> std::string {
     switch (fn) {
@@ -173,7 +180,7 @@ Outcome World::apply(const Op& op) {
         eused[op.slot] = true;
         break;
       }
-      case OP_RELEASE: sort_reports = armed != 0; e[op.slot].reset(); break;
+      case OP_RELEASE: sort_reports = armed != 0; if (op.k1 == 1) during_unwinding([&] { e[op.slot].reset(); }); else e[op.slot].reset(); break;
       case OP_CALL: {
         callobj = op.obj; callfn = op.fn;
         try {
@@ -201,7 +208,12 @@ Outcome World::apply(const Op& op) {
         depth = 0;
         break;
       }
-      case OP_DESTROY_MOCK: sort_reports = true; if (op.obj < 2) m[op.obj].reset(); else mv[op.obj - 2].reset(); break;
+      case OP_DESTROY_MOCK: {
+        sort_reports = true;
+        auto kill = [&] { if (op.obj < 2) m[op.obj].reset(); else mv[op.obj - 2].reset(); };
+        if (op.k1 == 1) during_unwinding(kill); else kill();
+        break;
+      }
       case OP_MOVE_MOCK: mv[op.k1 - 2].reset(new MV(std::move(*mv[op.obj - 2]))); break;
       case OP_DESTROY_SEQ: sort_reports = armed != 0; seq[op.s1].reset(); break;
       case OP_MOVE_SEQ: seq[op.s1].reset(new trompeloeil::sequence(std::move(*seq[op.s1]))); break;
@@ -215,7 +227,7 @@ Outcome World::apply(const Op& op) {
         parked_seq.push_back(std::move(seq[op.s1]));
         break;
       case OP_NEW_WATCHED: w[op.obj].reset(new WObj); break;
-      case OP_DELETE_WATCHED: sort_reports = true; w[op.obj].reset(); break;
+      case OP_DELETE_WATCHED: sort_reports = true; if (op.k1 == 1) during_unwinding([&] { w[op.obj].reset(); }); else w[op.obj].reset(); break;
       case OP_COPY_WATCHED:  // k2 = 0: copy from a const lvalue (the copy constructor proper); k2 = 1: from a non-const lvalue (picks the forwarding constructor)
         if (op.k2 == 0) w[op.k1].reset(new WObj(static_cast<const WObj&>(*w[op.obj]))); else w[op.k1].reset(new WObj(*w[op.obj]));
         break;
